@@ -3,7 +3,8 @@
    context cancellation and goroutine exit are primitives of the model. *)
 From FunV Require Import Base.Tac Base.ListX Model.Pipelines
   Proofs.Pipelines_conserve Proofs.Pipelines_quiesce Proofs.Pipelines_nets Proofs.Pipelines_complete Proofs.Pipelines_closer
-  Proofs.Pipelines_loops Proofs.Pipelines_release Proofs.Pipelines_nodrop Proofs.Pipelines_completeness Proofs.Pipelines_progress.
+  Proofs.Pipelines_loops Proofs.Pipelines_release Proofs.Pipelines_nodrop Proofs.Pipelines_completeness Proofs.Pipelines_progress
+  Proofs.Pipelines_completeness_merge Proofs.Pipelines_completeness_split Proofs.Pipelines_completeness_pp Proofs.Pipelines_completeness_map Proofs.Pipelines_completeness_pbuf Proofs.Pipelines_completeness_chan Proofs.Pipelines_completeness_all.
 
 (* (iii) a goroutine blocked at a ctx-guarded select whose context is cancelled can take a step *)
 Theorem C04_ctx_guarded_enabled :
@@ -200,3 +201,92 @@ Theorem C04_progress_exhaust_generate :
     reach (gen_net n GEof) (gen_init n input) s -> s_stopped s = false -> ~ all_done s -> ~ quiescent (gen_net n GEof) s.
 Proof. exact gen_eof_progress. Qed.
 Print Assumptions C04_progress_exhaust_generate.
+
+(* C04_finite_input_eof / C04_progress_exhaust for MergeIterators *)
+Theorem C04_finite_input_eof_merge :
+  forall n srcs s,
+    length srcs = n -> reach (fanin_net n (fun j => j)) (fanin_init n 0 srcs) s -> s_stopped s = false ->
+    quiescent (fanin_net n (fun j => j)) s -> all_done s /\ Permutation (s_deliv s) (concat srcs).
+Proof. exact merge_finite_input_eof. Qed.
+Print Assumptions C04_finite_input_eof_merge.
+Theorem C04_progress_exhaust_merge :
+  forall n srcs s,
+    length srcs = n -> reach (fanin_net n (fun j => j)) (fanin_init n 0 srcs) s -> s_stopped s = false ->
+    ~ all_done s -> ~ quiescent (fanin_net n (fun j => j)) s.
+Proof. exact merge_progress. Qed.
+Print Assumptions C04_progress_exhaust_merge.
+
+(* C04_finite_input_eof / C04_progress_exhaust for Split(n), n >= 1 *)
+Theorem C04_finite_input_eof_split :
+  forall n input s,
+    0 < n -> reach (split_net n) (split_init n input) s -> s_stopped s = false -> quiescent (split_net n) s ->
+    all_done s /\ Permutation (s_deliv s) input.
+Proof. exact split_finite_input_eof. Qed.
+Print Assumptions C04_finite_input_eof_split.
+Theorem C04_progress_exhaust_split :
+  forall n input s,
+    0 < n -> reach (split_net n) (split_init n input) s -> s_stopped s = false -> ~ all_done s -> ~ quiescent (split_net n) s.
+Proof. exact split_progress. Qed.
+Print Assumptions C04_progress_exhaust_split.
+
+(* C04_finite_input_eof / C04_progress_exhaust for Iterator.ProcessParallel, n >= 1 workers *)
+Theorem C04_finite_input_eof_process_parallel :
+  forall n, 0 < n -> forall input s,
+    reach (pp_net n) (pp_init n input) s -> s_stopped s = false -> quiescent (pp_net n) s ->
+    all_done s /\ Permutation (s_deliv s) input.
+Proof. exact pp_finite_input_eof. Qed.
+Print Assumptions C04_finite_input_eof_process_parallel.
+Theorem C04_progress_exhaust_process_parallel :
+  forall n, 0 < n -> forall input s,
+    reach (pp_net n) (pp_init n input) s -> s_stopped s = false -> ~ all_done s -> ~ quiescent (pp_net n) s.
+Proof. exact pp_progress. Qed.
+Print Assumptions C04_progress_exhaust_process_parallel.
+
+(* C04_finite_input_eof / C04_progress_exhaust for fun.Map / Transform.ProcessParallel, n >= 1 workers *)
+Theorem C04_finite_input_eof_map :
+  forall n, 0 < n -> forall input s,
+    reach (map_net n) (map_init n input) s -> s_stopped s = false -> quiescent (map_net n) s ->
+    all_done s /\ Permutation (s_deliv s) input.
+Proof. exact map_finite_input_eof. Qed.
+Print Assumptions C04_finite_input_eof_map.
+Theorem C04_progress_exhaust_map :
+  forall n, 0 < n -> forall input s,
+    reach (map_net n) (map_init n input) s -> s_stopped s = false -> ~ all_done s -> ~ quiescent (map_net n) s.
+Proof. exact map_progress. Qed.
+Print Assumptions C04_progress_exhaust_map.
+
+(* C04_finite_input_eof / C04_progress_exhaust for Iterator.ParallelBuffer *)
+Theorem C04_finite_input_eof_parallel_buffer :
+  forall n input s,
+    reach (pbuf_net n) (pbuf_init n input) s -> s_stopped s = false -> quiescent (pbuf_net n) s ->
+    all_done s /\ Permutation (s_deliv s) input.
+Proof. exact pbuf_finite_input_eof. Qed.
+Print Assumptions C04_finite_input_eof_parallel_buffer.
+Theorem C04_progress_exhaust_parallel_buffer :
+  forall n input s,
+    reach (pbuf_net n) (pbuf_init n input) s -> s_stopped s = false -> ~ all_done s -> ~ quiescent (pbuf_net n) s.
+Proof. exact pbuf_progress. Qed.
+Print Assumptions C04_progress_exhaust_parallel_buffer.
+
+(* C04_finite_input_eof for Iterator.BufferedChannel / Channel, any capacity *)
+Theorem C04_finite_input_eof_buffered_channel :
+  forall cap input s,
+    reach chan_net (chan_init cap input) s -> s_stopped s = false -> quiescent chan_net s ->
+    all_done s /\ Permutation (s_deliv s) input.
+Proof. exact chan_finite_input_eof. Qed.
+Print Assumptions C04_finite_input_eof_buffered_channel.
+
+(* C04_finite_input_eof and C04_progress_exhaust: C04_finite_input_eof_statement for EVERY construct family, under the
+   side conditions complete_ok (see C01_complete). What is still not proved: that a fair scheduler reaches the
+   terminal state (no fairness notion here); runs are bounded by C04_loops_ctx_guarded and the finite input. *)
+Theorem C04_finite_input_eof :
+  forall K srcs s,
+    complete_ok K srcs -> reach (net_of K) (init_of K srcs) s -> s_stopped s = false -> quiescent (net_of K) s ->
+    all_done s /\ Permutation (s_deliv s) (concat srcs).
+Proof. exact finite_input_eof_all. Qed.
+Print Assumptions C04_finite_input_eof.
+Theorem C04_progress_exhaust :
+  forall K srcs s,
+    complete_ok K srcs -> reach (net_of K) (init_of K srcs) s -> s_stopped s = false -> ~ all_done s -> ~ quiescent (net_of K) s.
+Proof. exact progress_exhaust_all. Qed.
+Print Assumptions C04_progress_exhaust.
